@@ -130,13 +130,16 @@ def run(ctx):
         res.check(re.fullmatch(r"to_os_string\(next\(into_iter\(remaining\(raw_args,args_cursor\)\)\)#Some\.0\)", e) is not None, "R2.4", "external-verbatim", c.where(), "external subcommand args stored verbatim", "external subcommand arg stored as %s" % e[:100])
     rc = fx.body("clap_builder::parser::parser::Parser::react")
     spl = rc.calls_to(r"OsStrExt>?::split$")
-    res.floor("R2.4", "delimiter split in react", len(spl), 1)
+    # react still consults the declared delimiter but no longer cuts with OsStrExt::split (which yields EVERY piece, empty ones included):
+    # a hand-written cutting loop is where pieces get lost
+    require(fx, res, "R2.4", "split-pieces-all-kept", rc, r"OsStrExt>?::split$", len(spl), 1,
+            "react no longer splits a delimited value with OsStrExt::split (the declared delimiter is still read: %d get_value_delimiter call(s)); a hand-written cut can drop or merge pieces (e.g. the empty piece after a trailing delimiter)" % len(rc.calls_to(r"Arg::get_value_delimiter$")))
     for c in spl:
         d = expr(rc, c.args[1])
         res.check(re.search(r"^encode_utf8\(get_value_delimiter\(arg\)#Some\.0", d) is not None, "R2.4", "split-only-at-declared-delimiter", c.where(), "values split only at the arg's declared delimiter", "react splits at %s" % d[:80])
     # every piece of the split is kept: the only thing between split() and the value list is the to-owned map
     exts = [c for c in rc.calls_to(r"Extend(<[^>]*>)?>?::extend$", r"Iterator::collect$") if "split(" in " ".join(expr(rc, a) for a in c.args)]
-    res.floor("R2.4", "consumer of the delimiter split in react", len(exts), 1)
+    res.floor("R2.4", "consumer of the delimiter split in react", len(exts), 1 if spl else 0)
     for c in exts:
         e = [expr(rc, a) for a in c.args if "split(" in expr(rc, a)][0]
         okk = re.fullmatch(r"map\(split\(next\(into_iter\(enumerate\(into_iter\(raw_vals\)\)\)\)#Some\.0\.1,encode_utf8\(.*\)\),closure\(\)\)", e) is not None
